@@ -208,8 +208,11 @@ def check(reg, tier):
     for v in sorted(T):
         for new, e in T[v].items():
             for use_underscore in (True, False):
-                jobs.append((v, new, e[0], use_underscore))
-    reg.extra["table_entries"] = len(jobs) // 2
+                jobs.append((v, new, e[0], use_underscore, v))
+            if v == (3, 1, 2):
+                # a set saved by an older release goes through the same table
+                jobs.append((v, new, e[0], True, (3, 0, 0)))
+    reg.extra["table_entries"] = len(set(j[:3] for j in jobs))
     from vp.core import run_parallel
     run_parallel(reg, _job, jobs)
     reg.assume("CONVERSION_TABLE and the ModelInfo of each target model are data facts read "
@@ -256,7 +259,8 @@ def _value_pre(it, newname, pres, vals, required):
         it.assume(vals["radius"] != vals["core_radius"])
 
 
-def _check_entry(reg, version, newname, oldname, use_underscore):
+def _check_entry(reg, table_version, newname, oldname, use_underscore, version=None):
+    version = version or table_version
     chain = spec_chain(oldname, version)
     tag = "%s.v%s%s" % (newname.replace(":", "_"), "".join(map(str, version)),
                         ".us" if use_underscore else ".dot")
@@ -343,30 +347,30 @@ def _check_entry(reg, version, newname, oldname, use_underscore):
                     tgt = n + (UNDERS[dot] if use_underscore else dot)
                     ent = out.entries.get(tgt)
                     if ent is None or ent[0] is False:
-                        goals.append((src, tgt, z3.Not(pres[src])))
+                        goals.append((src, tgt, z3.Not(pres[src]), None))
                         continue
                     p, v = ent
                     fac = 1000000 if (factor_sld and dot == "") else 1
                     try:
                         ve = num_expr(v)
                     except OutsideSubset:
-                        goals.append((src, tgt, z3.Not(pres[src])))
+                        goals.append((src, tgt, z3.Not(pres[src]), None))
                         continue
                     if z3.is_int(ve):
                         ve = z3.ToReal(ve)
                     pe = z3.BoolVal(True) if p is True else p
                     goals.append((src, tgt, z3.Implies(pres[src],
-                                                       z3.And(pe, ve == vals[src] * fac))))
+                                                       z3.And(pe, ve == vals[src] * fac)), fac))
             if goals:
-                conj = z3.And(*[g for _, _, g in goals])
+                conj = z3.And(*[g[2] for g in goals])
                 s = z3.Solver(); s.add(*pc); s.add(z3.Not(conj))
                 if s.check() == z3.unsat:
                     reg.passed(oid("routing"), function=fn)
                 else:
-                    for src, tgt, g in goals:
+                    for src, tgt, g, fac in goals:
                         reg.prove(oid("routing"), pc, g, function=fn,
                                   replay=make_routing_replay(oldname, version, use_underscore, keys,
-                                                             pres, vals, src, tgt),
+                                                             pres, vals, src, tgt, fac),
                                   describe=lambda m, src=src, tgt=tgt: {"old_key": src,
                                                                         "expected_new_key": tgt})
             dg = []
@@ -432,7 +436,7 @@ def _check_entry(reg, version, newname, oldname, use_underscore):
             reg.undecided("%s.engine.region.%s.%s" % (PROP, tag, r), str(exc), function=fn)
 
 
-def make_routing_replay(oldname, version, use_underscore, keys, pres, vals, src, tgt):
+def make_routing_replay(oldname, version, use_underscore, keys, pres, vals, src, tgt, fac=None):
     def replay(model):
         from sasmodels import convert
         pars = {}
@@ -445,9 +449,13 @@ def make_routing_replay(oldname, version, use_underscore, keys, pres, vals, src,
             name, out = convert.convert_model(oldname, dict(pars), use_underscore, version)
         except Exception as exc:
             return True, {"call": call, "raised": repr(exc)}
+        if src in pars and pars[src] == 0:
+            pars[src] = 1.25          # make a lost scale factor visible
+            name, out = convert.convert_model(oldname, dict(pars), use_underscore, version)
+        facs = (1.0, 1e6) if fac is None else (float(fac),)
         if src in pars and (tgt not in out or
                             not any(abs(out[tgt] - pars[src] * f) <= 1e-9 * abs(pars[src] * f)
-                                    for f in (1.0, 1e6))):
+                                    for f in facs)):
             return True, {"call": call, "old_key": src, "expected_new_key": tgt,
                           "returned": out}
         return False, {"call": call, "returned": out}
